@@ -45,47 +45,67 @@ Qed.
 (* ================================================================================================ *)
 (* insertion sort by key is independent of the order in which the entries arrive                     *)
 (* ================================================================================================ *)
-Section SortFacts.
+Section SortGeneric.
   Variable A : Type.
   Notation entry := (str * A)%type.
 
-  Lemma le_false_flip (x y : str) : str_le x y = false -> str_le y x = true.
-  Proof. intros H. destruct (str_le_total x y); congruence. Qed.
-  Lemma le_neq_flip (x y : str) : x <> y -> str_le x y = true -> str_le y x = false.
-  Proof. intros Hn H. destruct (str_le y x) eqn:E; [|reflexivity]. exfalso. apply Hn. now apply str_le_antisym. Qed.
+  (* generic in the comparison: what makes the sorted output unique is that [le] is total,
+     transitive and ANTISYMMETRIC ON KEYS *)
+  Variable le : str -> str -> bool.
+  Hypothesis le_total : forall a b, le a b = true \/ le b a = true.
+  Hypothesis le_trans : forall a b c, le a b = true -> le b c = true -> le a c = true.
+  Hypothesis le_antisym : forall a b, le a b = true -> le b a = true -> a = b.
+
+  Lemma le_false_flip (x y : str) : le x y = false -> le y x = true.
+  Proof. intros H. destruct (le_total x y); congruence. Qed.
+  (* antisymmetry is used exactly here: two DIFFERENT keys cannot each be below the other, so their
+     relative position after insertion does not depend on which was inserted first *)
+  Lemma le_neq_flip (x y : str) : x <> y -> le x y = true -> le y x = false.
+  Proof. intros Hn H. destruct (le y x) eqn:E; [|reflexivity]. exfalso. apply Hn. now apply le_antisym. Qed.
 
   Lemma insert_comm (x y : entry) l : fst x <> fst y ->
-    insert_by_key x (insert_by_key y l) = insert_by_key y (insert_by_key x l).
+    insert_with le x (insert_with le y l) = insert_with le y (insert_with le x l).
   Proof.
     intros Hn. induction l as [|z r IH].
-    - cbn. destruct (str_le (fst x) (fst y)) eqn:E.
+    - cbn. destruct (le (fst x) (fst y)) eqn:E.
       + now rewrite (le_neq_flip _ _ Hn E).
       + now rewrite (le_false_flip _ _ E).
-    - cbn [insert_by_key]. destruct (str_le (fst y) (fst z)) eqn:Eyz; destruct (str_le (fst x) (fst z)) eqn:Exz; cbn [insert_by_key].
-      + destruct (str_le (fst x) (fst y)) eqn:Exy.
+    - cbn [insert_with]. destruct (le (fst y) (fst z)) eqn:Eyz; destruct (le (fst x) (fst z)) eqn:Exz; cbn [insert_with].
+      + destruct (le (fst x) (fst y)) eqn:Exy.
         * rewrite (le_neq_flip _ _ Hn Exy). now rewrite Eyz.
         * rewrite (le_false_flip _ _ Exy). now rewrite Exz.
-      + assert (Exy : str_le (fst x) (fst y) = false).
-        { destruct (str_le (fst x) (fst y)) eqn:E; [|reflexivity]. rewrite (str_le_trans _ _ _ E Eyz) in Exz. discriminate. }
+      + assert (Exy : le (fst x) (fst y) = false).
+        { destruct (le (fst x) (fst y)) eqn:E; [|reflexivity]. rewrite (le_trans _ _ _ E Eyz) in Exz. discriminate. }
         rewrite Exy, Exz, Eyz. reflexivity.
-      + assert (Eyx : str_le (fst y) (fst x) = false).
-        { destruct (str_le (fst y) (fst x)) eqn:E; [|reflexivity]. rewrite (str_le_trans _ _ _ E Exz) in Eyz. discriminate. }
+      + assert (Eyx : le (fst y) (fst x) = false).
+        { destruct (le (fst y) (fst x)) eqn:E; [|reflexivity]. rewrite (le_trans _ _ _ E Exz) in Eyz. discriminate. }
         rewrite Exz, Eyx, Eyz. reflexivity.
       + rewrite Exz, Eyz. now rewrite IH.
   Qed.
 
-  Theorem sort_by_key_perm (l l' : list entry) :
-    Permutation l l' -> NoDup (map fst l) -> sort_by_key l = sort_by_key l'.
+  Theorem sort_with_perm (l l' : list entry) :
+    Permutation l l' -> NoDup (map fst l) -> sort_with le l = sort_with le l'.
   Proof.
     induction 1 as [|x l l' Hp IH|x y l|l l' l'' Hp1 IH1 Hp2 IH2]; intros Hnd.
     - reflexivity.
-    - change (insert_by_key x (sort_by_key l) = insert_by_key x (sort_by_key l')).
+    - change (insert_with le x (sort_with le l) = insert_with le x (sort_with le l')).
       rewrite IH; [reflexivity|]. cbn in Hnd. now inversion Hnd.
-    - change (insert_by_key y (insert_by_key x (sort_by_key l)) = insert_by_key x (insert_by_key y (sort_by_key l))).
+    - change (insert_with le y (insert_with le x (sort_with le l)) = insert_with le x (insert_with le y (sort_with le l))).
       apply insert_comm. cbn in Hnd. inversion Hnd as [|? ? Hin _]. intros E. apply Hin. left. now symmetry.
     - rewrite IH1 by assumption. apply IH2.
       apply (Permutation_NoDup (l := map fst l)); [now apply Permutation_map|assumption].
   Qed.
+
+End SortGeneric.
+
+Section SortFacts.
+  Variable A : Type.
+  Notation entry := (str * A)%type.
+
+  (* the generators' instance: sort.Strings on the exact names *)
+  Theorem sort_by_key_perm (l l' : list entry) :
+    Permutation l l' -> NoDup (map fst l) -> sort_by_key l = sort_by_key l'.
+  Proof. apply (sort_with_perm A str_le str_le_total str_le_trans str_le_antisym). Qed.
 
   (* the content of a Go map has unique keys *)
   Lemma remove_key_in k (l : list entry) e : In e (remove_key k l) -> In e l /\ fst e <> k.
@@ -124,6 +144,28 @@ Section SortFacts.
     - apply sort_by_key_perm; [apply H2|apply map_of_nodup].
   Qed.
 End SortFacts.
+
+(* A sort under a coarser key is NOT a function of the collection: the case-insensitive comparison is
+   total and transitive, yet two different names that are equal up to case come out in arrival order. *)
+Lemma str_le_ci_total a b : str_le_ci a b = true \/ str_le_ci b a = true.
+Proof. apply str_le_total. Qed.
+Lemma str_le_ci_trans a b c : str_le_ci a b = true -> str_le_ci b c = true -> str_le_ci a c = true.
+Proof. apply str_le_trans. Qed.
+Lemma str_le_ci_not_antisymmetric :
+  str_le_ci (s "X-Request-Id") (s "X-Request-ID") = true /\ str_le_ci (s "X-Request-ID") (s "X-Request-Id") = true /\
+  s "X-Request-Id" <> s "X-Request-ID".
+Proof. repeat split; try reflexivity. vm_compute. discriminate. Qed.
+Lemma coarse_key_sort_depends_on_arrival_order :
+  let l1 := [(s "X-Request-Id", 1%nat); (s "X-Request-ID", 2%nat); (s "Accept", 3%nat)] in
+  let l2 := [(s "X-Request-ID", 2%nat); (s "X-Request-Id", 1%nat); (s "Accept", 3%nat)] in
+  Permutation l1 l2 /\ NoDup (map fst l1) /\
+  sort_with str_le_ci l1 <> sort_with str_le_ci l2 /\
+  sort_by_key l1 = sort_by_key l2.
+Proof.
+  cbv zeta. split; [apply perm_swap|]. split.
+  - repeat constructor; cbn; intuition discriminate.
+  - split; [vm_compute; discriminate|reflexivity].
+Qed.
 
 (* ================================================================================================ *)
 (* what a plugin reads                                                                               *)
